@@ -117,4 +117,14 @@ def run(tier: str) -> Run:
     got = term_of(outs[0].value, fi)
     want = Mat.sym('u_matrix') * Mat.sym('b_matrix')
     r3.check(eq_term(got, want), 'ub_matrix_from_u_and_b', loc(fi), {'computed': T.show(got), 'documented': T.show(want)}, key='ub')
+
+    # R6 totality: the conversions hold "for every non-singular UB" and every beam / wavelength: no kernel may refuse
+    # a valid symbolic input (Q_vec_from_Q_elements documents one refusal: components of different shape)
+    r6 = run.rule('R6', 'no kernel refuses valid input (documented refusal: Q components of different shape)', 5)
+    allowed = {'Q_vec_from_Q_elements': {'DimensionError'}}
+    for name in ('Q_elements_from_wavelength', 'Q_vec_from_Q_elements', 'hkl_vec_from_Q_vec', 'hkl_elements_from_hkl_vec', 'ub_matrix_from_u_and_b'):
+        kfi = repo.func('conversion.tof', name)
+        all_outs = run_kernel(repo, kfi, specs_for(kfi))
+        bad = [(o.exc_type, o.where) for o in all_outs if o.kind == 'raise' and o.exc_type not in allowed.get(name, set())]
+        r6.check(not bad and any(o.kind == 'return' for o in all_outs), name, loc(kfi), {'refusals': bad[:3]}, key=f'total:{name}')
     return run
